@@ -233,6 +233,13 @@ def reject_case(rep):
     d['sweeper_params']['quad_type'] = 'GAUSS'
     rep.side('pfasst-without-right-end-point', _raises(lambda: mk(d, 2), (ControllerError,)) is True)
     rep.side('deprecated-predict-flag', _raises(lambda: mk(base(), 1, {'predict': True}), (ControllerError,)) is True)
+    for v in (False, 0, None, '', 'fine_only'):  # the deprecated key is rejected whatever its value (a user switching the predictor off writes False)
+        rep.side(f'deprecated-predict-flag/{v!r}', _raises(lambda: mk(base(2), 2, {'predict': v}), (ControllerError,)) is True)
+    for key in ('dtype_u', 'dtype_f'):
+        for v in (None, 0, 'mesh'):
+            d = base()
+            d[key] = v
+            rep.side(f'deprecated-{key}/{v!r}', _raises(lambda: mk(d), (ParameterError,)) is True)
     # the same faults placed on SOME levels only (list-valued entries): every non-empty subset of 2 and 3 levels
     import itertools
 
